@@ -8,6 +8,12 @@ I2 = TupleT(INT, INT)
 # the result queue as the parent sees it: recv[w] = number of objects of worker w already dequeued; last_w = producer of the last dequeued object
 MPQ = ObjT("MPQueue", recv=MapT(INT, INT), last_w=INT)
 Proc = ObjT("Process", wid=INT)
+# a worker as the two observation helpers see it: running now? / exit code (None while running)
+ProcObs = ObjT("Process", alive=BOOL, exitcode=Opt(INT))
+ProcObs.name = "Obj<ProcessObserved>"
+ONE_IS_ALIVE_POST = "result == exists(lambda w: 0 <= w < len(processes) and alive1[w])"
+ALL_ARE_ALIVE_POST = "result == forall(lambda w: implies(0 <= w < len(processes), alive1[w]))"
+ALL_EXITED_POST = "result == forall(lambda w: implies(0 <= w < len(processes), not alive2[w] and not failed2[w]))"
 
 ENV = {
     # worker w puts nres[w] results itm(w, 0..) and then the sentinel None: object k of worker w
@@ -33,14 +39,38 @@ def register(reg):
     # truthful observations of the worker processes.  alive1 = who is running when is_alive() is asked, alive2 / failed2 = who is still running /
     # has terminated abnormally when the exit codes are read afterwards (a worker may stop in between, never restart: alive2 implies alive1)
     reg.add(Contract(file=REALIGN, func="one_is_alive", params=dict(processes=ListT(Proc)), returns=BOOL, trusted=True, ghost_reads=["alive1"],
-                     ensures={"truthful": "result == exists(lambda w: 0 <= w < len(processes) and alive1[w])"},
-                     notes="environment observation: is at least one worker running now"))
+                     ensures={"truthful": ONE_IS_ALIVE_POST},
+                     notes="caller view of one_is_alive (is at least one worker running now); the same post is PROVED of the body: one_is_alive#body"))
     reg.add(Contract(file=REALIGN, func="all_are_alive", params=dict(processes=ListT(Proc)), returns=BOOL, trusted=True, ghost_reads=["alive1"],
-                     ensures={"truthful": "result == forall(lambda w: implies(0 <= w < len(processes), alive1[w]))"},
-                     notes="environment observation: are all workers running now"))
+                     ensures={"truthful": ALL_ARE_ALIVE_POST},
+                     notes="caller view of all_are_alive (are all workers running now); the same post is PROVED of the body: all_are_alive#body"))
     reg.add(Contract(file=REALIGN, func="all_exited", params=dict(processes=ListT(Proc)), returns=BOOL, trusted=True, ghost_reads=["alive2", "failed2"],
-                     ensures={"observes-exit-codes": "result == forall(lambda w: implies(0 <= w < len(processes), not alive2[w] and not failed2[w]))"},
-                     notes="environment observation: every exit code is 0 (a running worker has exit code None, which is not 0)"))
+                     ensures={"observes-exit-codes": ALL_EXITED_POST},
+                     notes="caller view of all_exited: every exit code is 0 (a running worker has exit code None, which is not 0); the same post is PROVED of the body: all_exited#body"))
+    # the two observation helpers themselves (bodies verified; the caller-side contracts above are their posts, word for word): a process is seen
+    # as (alive, exitcode); the ghost maps of the collector are DEFINED from the observed objects in the requires
+    reg.add(Contract(file="(assumed)/mpprocess.py", func="Process.is_alive", params=dict(self=ProcObs), returns=BOOL, trusted=True,
+                     ensures={"observes": "result == self.alive"}, notes="environment: multiprocessing.Process.is_alive() reports whether the worker runs now"))
+    reg.add(Contract(
+        file=REALIGN, func="one_is_alive", variant="#body", params=dict(processes=ListT(ProcObs)), returns=BOOL, ghost=dict(alive1=MapT(INT, BOOL)),
+        requires=["forall(lambda w: implies(0 <= w < len(processes), alive1[w] == processes[w].alive))"],
+        loops={1: Loop(index="it1", fingerprint="for p in processes", invariant={"none-so-far": "forall(lambda w: implies(0 <= w < it1, not alive1[w]))"})},
+        ensures={"truthful": ONE_IS_ALIVE_POST},
+    ))
+    reg.add(Contract(
+        file=REALIGN, func="all_are_alive", variant="#body", params=dict(processes=ListT(ProcObs)), returns=BOOL, ghost=dict(alive1=MapT(INT, BOOL)),
+        requires=["forall(lambda w: implies(0 <= w < len(processes), alive1[w] == processes[w].alive))"],
+        loops={1: Loop(index="it1", fingerprint="for p in processes", invariant={"all-so-far": "forall(lambda w: implies(0 <= w < it1, alive1[w]))"})},
+        ensures={"truthful": ALL_ARE_ALIVE_POST},
+    ))
+    reg.add(Contract(
+        file=REALIGN, func="all_exited", variant="#body", params=dict(processes=ListT(ProcObs)), returns=BOOL,
+        ghost=dict(alive2=MapT(INT, BOOL), failed2=MapT(INT, BOOL)),
+        requires=["forall(lambda w: implies(0 <= w < len(processes), alive2[w] == is_none(processes[w].exitcode) and "
+                  "failed2[w] == (not is_none(processes[w].exitcode) and val(processes[w].exitcode) != 0)))"],
+        loops={1: Loop(index="it1", fingerprint="for p in processes", invariant={"all-zero-so-far": "forall(lambda w: implies(0 <= w < it1, not alive2[w] and not failed2[w]))"})},
+        ensures={"observes-exit-codes": ALL_EXITED_POST},
+    ))
     for occ, name in ((0, "#collector-full-groups"), (1, "#collector-leftover")):
         reg.add(Contract(
             file=REALIGN, func="realign_gaf", variant=name, fragment=("n_sentinels = 0", 2, occ),
